@@ -1,9 +1,10 @@
 package check
 
 import (
-	"math"
 	"go.flow.arcalot.io/engine/zverif/harness"
 	"go.flow.arcalot.io/engine/zverif/ir"
+	"go.flow.arcalot.io/engine/zverif/simrt"
+	"math"
 	"pgregory.net/rapid"
 )
 
@@ -68,9 +69,22 @@ func init() {
 		{Name: "c09-small", MinSteps: 2, MaxSteps: 4, Durs: someDurs, PWaitFor: 40, PDeploySlow: 30, PDisabled: 20, PNoSignal: 20},
 		{Name: "c09-errpath", MinSteps: 1, MaxSteps: 3, Durs: []int64{0, 5, 40}, Modes: []string{"err", "crash"}, PBad: 40, ErrOutput: true, PDeployFail: 20},
 	}
+	// disabled steps whose disabled.output something depends on (one-of ran/off, !ordisabled)
+	c09 = append(c09, &ir.Profile{Name: "c09-disabled", MinSteps: 2, MaxSteps: 3, Durs: []int64{0, 5, 40}, Tags: true, PDisabled: 60, PWaitFor: 20})
 	c09 = append(c09, &ir.Profile{Name: "c09-loop", MinSteps: 1, MaxSteps: 2, Durs: []int64{0, 1, 10}, Foreach: 70, PWaitFor: 20})
 	register(&PropDef{ID: "C09",
-		Gen:   func(t *rapid.T) *Case { return genS1(t, "C09", c09, true) },
+		Gen: func(t *rapid.T) *Case {
+			c := genS1(t, "C09", c09, true)
+			if rapid.IntRange(0, 2).Draw(t, "delay_after_state_write") == 0 {
+				// the property's own concern: a step has just claimed a state (waiting, finished) and what it
+				// does next is delayed for longer than the detector's three retries
+				c.Policy = simrt.PolicySpec{Kind: "holdat", Seed: c.Policy.Seed, L: 1500,
+					HoldState: rapid.IntRange(1, 40).Draw(t, "hold_state"),
+					WindowUS:  rapid.SampledFrom([]int64{45000, 200000, 200000, 6000000}).Draw(t, "state_window_us"),
+					Shuffle:   rapid.Bool().Draw(t, "shuffle"), PSelect: c.Policy.PSelect}
+			}
+			return c
+		},
 		Check: s1Check("C09", OracleTerminates, OracleResult),
 	})
 
@@ -191,6 +205,7 @@ func init() {
 	c15 := []*ir.Profile{
 		{Name: "c15-tags", MinSteps: 2, MaxSteps: 5, Durs: someDurs, Tags: true, PDisabled: 45, PWaitFor: 20, PDeploySlow: 30, MaxOutputs: 1},
 		{Name: "c15-tags-failing", MinSteps: 2, MaxSteps: 5, Durs: someDurs, Tags: true, Modes: []string{"err", "crash", "alt"}, PBad: 35, PDeployFail: 15, PDisabled: 35, PWaitFor: 20, MaxOutputs: 2, ErrOutput: true},
+		{Name: "c15-tags-loops", MinSteps: 2, MaxSteps: 4, Durs: []int64{0, 5, 50}, Tags: true, Foreach: 35, Modes: []string{"err"}, PBad: 25, PDisabled: 25, MaxOutputs: 1},
 		{Name: "c15-tags-hang", MinSteps: 2, MaxSteps: 4, Durs: []int64{0, 5, 50}, Tags: true, PDisabled: 30, SoftHang: true},
 	}
 	register(&PropDef{ID: "C15",
